@@ -39,7 +39,7 @@ InitPol(p) == CASE p.k = "cb" -> BO(p.cfg)!NewClosed
 DescOf(id) == stack[CHOOSE i \in 1..N : stack[i].k \in {"cb", "rl", "bh", "cache"} /\ stack[i].id = id]
 
 FreshX(ck) ==
-  [mode |-> "down", i |-> 1, res |-> Failure(Nil), ck |-> ck, t0 |-> 0,
+  [mode |-> "down", i |-> 1, res |-> Failure(Nil), ck |-> ck, t0 |-> 0, pol0 |-> <<>>,
    rs |-> [i \in 1..N |-> [failed |-> 0, exceeded |-> FALSE]],
    hs |-> [i \in 1..N |-> 0],
    att |-> 1, ret |-> 0, hdg |-> 0, exe |-> 0, calls |-> 0,
@@ -195,7 +195,7 @@ Init ==
 StartExec ==
   /\ m.x.mode = "fin" /\ Len(fin) < Execs
   /\ \E ck \in CtxKeys :
-       LET s == RunToChoice([m EXCEPT !.x = [FreshX(ck) EXCEPT !.t0 = m.now]]) IN
+       LET s == RunToChoice([m EXCEPT !.x = [FreshX(ck) EXCEPT !.t0 = m.now, !.pol0 = m.pol]]) IN
        /\ m' = s
        /\ fin' = IF s.x.mode = "fin" THEN Append(fin, Summary(s)) ELSE fin
   /\ UNCHANGED stack
